@@ -956,21 +956,22 @@ func (s *impl) onAck(pkt *mqttp.Ack) mqttp.IFace {
 	case mqttp.PUBREC:
 		// remote received PUBLISH message sent by this server
 		outstanding := s.tx.pubOut.release(pkt)
-		if outstanding {
-			s.metric.OnSubUnAckSent(1)
+		if !outstanding {
+			// nothing is in flight under this identifier (a repeated PUBREC after the exchange has
+			// completed, a bogus identifier): a PUBREL sent for it would be registered as
+			// unacknowledged, and its PUBCOMP would give back a slot of the send quota nobody took
+			break
 		}
+
+		s.metric.OnSubUnAckSent(1)
 
 		discard := false
 
 		id, _ := pkt.ID()
 
 		if s.version == mqttp.ProtocolV50 && pkt.Reason() >= mqttp.CodeUnspecifiedError {
-			// v5.0 [MQTT-4.9]: the refusal ends the delivery and gives its slot back - the slot of
-			// a delivery that is outstanding: a repeated refusal, or one for an identifier that is
-			// not in flight, must not raise the send quota above the client's Receive Maximum
-			if outstanding {
-				s.tx.releaseID(id)
-			}
+			// v5.0 [MQTT-4.9]: the refusal ends the delivery and gives its slot back
+			s.tx.releaseID(id)
 
 			discard = true
 		}
